@@ -4,6 +4,15 @@
 // connection manager / connection.  Everything the client does to its environment is logged from
 // the client's own goroutine (the fakes drain the output channel before they log), so the log is
 // the client's program order.
+//
+// Blocked cases (Case.Blocked) exercise the blocked-output loop (WriteLoop of handleXLogData): the
+// client gets a 2-slot output channel and a real 20 ms progress ticker; on scripted events the fake
+// ReceiveMessage fills the output channel with filler messages and keeps it full until the client
+// has sent len(Event.Blocked) status updates (or, with BlockedClose, until it shuts down because
+// the progress channel was closed under it).  Everything still happens on the client's goroutine.
+// Because the ticker is real, ticks may ALSO be served at any loop head and in any WriteLoop of
+// such a case; they are not scripted but read off the log when the Gallina case is written
+// (caseGallina), so nothing that depends on timing is ever compared.
 package client
 
 import (
@@ -17,6 +26,8 @@ import (
 	"path/filepath"
 	"sort"
 	"strings"
+	"sync"
+	"sync/atomic"
 	"time"
 
 	"verifharness/core"
@@ -41,13 +52,76 @@ type Event struct {
 	XLog   uint64   `json:"xlogpos,omitempty"`
 	Inject []uint64 `json:"inject,omitempty"` // progress values put on the channel inside this receive
 	PClose bool     `json:"pclose,omitempty"` // progress channel closed inside this receive
+	// Only in blocked cases and only on XLogData events that the client forwards (sanitize drops
+	// them elsewhere): the output channel is full when the client wants to hand this message over
+	// and stays full until the client has served len(Blocked) ticks; Blocked[i] = the progress
+	// values waiting on the progress channel at tick i (batch 0 is put there inside the receive,
+	// batch i+1 right after the status update of tick i was observed).
+	Blocked      [][]uint64 `json:"blocked,omitempty"`
+	BlockedClose bool       `json:"blocked_close,omitempty"` // the progress channel is closed together with the last batch: the last tick fails
 }
 
 type Case struct {
-	Mode   string  `json:"mode"`
-	PgLike bool    `json:"pg_like"` // the stream follows PostgreSQL's grammar (C07's domain) and has no error response
-	First  Event   `json:"first"`
-	Events []Event `json:"events"`
+	Mode    string  `json:"mode"`
+	PgLike  bool    `json:"pg_like"`                // the stream follows PostgreSQL's grammar (C07's domain) and has no error response
+	Blocked bool    `json:"blocked_case,omitempty"` // small output channel, real 20 ms progress ticker
+	First   Event   `json:"first"`
+	Events  []Event `json:"events"`
+}
+
+// framing mirrors the lines of handleXLogData / recoverFromErrorResponse that decide whether an
+// XLogData message reaches the WriteLoop (i.e. is forwarded): a BEGIN is dropped when the previous
+// transaction has no COMMIT and something was accepted since the last (re)start.
+type framing struct{ sawCommit, first bool }
+
+func newFraming() *framing { return &framing{false, true} }
+
+// reaches advances the framing state over e and says whether handleXLogData reaches its WriteLoop
+func (f *framing) reaches(e Event) bool {
+	if e.Kind == "error-response" {
+		f.sawCommit, f.first = false, true
+		return false
+	}
+	if e.Kind != "xlog" {
+		return false
+	}
+	switch e.X {
+	case "commit":
+		f.sawCommit = true
+		return true
+	case "change":
+		return true
+	case "begin":
+		if !f.sawCommit && !f.first {
+			f.sawCommit, f.first = false, true
+			return false
+		}
+		f.sawCommit, f.first = false, false
+		return true
+	}
+	return false
+}
+
+// sanitize makes a case well formed: blocked ticks only in blocked cases and only on events that
+// reach the WriteLoop (elsewhere the fake would fill the channel and nothing would ever empty it);
+// no reply-requested keepalives in blocked cases (their fast/slow class is a wall-clock threshold
+// and blocked cases really wait).
+func sanitize(c *Case) {
+	f := newFraming()
+	c.First.Blocked, c.First.BlockedClose = nil, false
+	for i := range c.Events {
+		e := &c.Events[i]
+		r := f.reaches(*e)
+		if !c.Blocked || !r || len(e.Blocked) == 0 {
+			e.Blocked, e.BlockedClose = nil, false
+		}
+		if len(e.Blocked) > 8 {
+			e.Blocked = e.Blocked[:8]
+		}
+		if c.Blocked && e.Kind == "keepalive" {
+			e.Reply, e.Slow = false, false
+		}
+	}
 }
 
 type Obs struct {
@@ -61,7 +135,21 @@ type Obs struct {
 	Reply bool   `json:"reply_requested,omitempty"`
 }
 
+// blockState: the fake keeps the output channel full until the client has sent len(batches)
+// status updates (closeLast: until it shuts down)
+type blockState struct {
+	batches   [][]uint64
+	closeLast bool
+	sent      int
+}
+
 type world struct {
+	mu       sync.Mutex // every fake callback holds it; the runner takes it only to snapshot a hung case
+	dead     bool       // the runner gave up on this case: callbacks do nothing any more
+	activity int64      // number of fake callbacks so far (atomic): the runner's liveness signal
+	blk      *blockState
+	filler   *replication.WalMessage
+	jitter   *rand.Rand // self-test only, see runImpl
 	log      []Obs
 	out      chan *replication.WalMessage
 	progress chan uint64
@@ -82,6 +170,9 @@ func (w *world) drain() {
 			if !ok {
 				return
 			}
+			if m == w.filler {
+				continue
+			}
 			w.log = append(w.log, Obs{K: "out", Op: m.Pr.Operation, Txn: m.Pr.Transaction, Key: m.TimeBasedKey, Wal: m.WalStart})
 		default:
 			return
@@ -89,11 +180,52 @@ func (w *world) drain() {
 	}
 }
 
+// enter is the first thing every fake callback does (on the client's goroutine, w.mu held): log
+// what the client has forwarded so far - except while the output channel is being kept full, where
+// the connection request and the status update of a blocked tick must leave it full; any other
+// callback in that mode (the Close of a shutdown after the WriteLoop failed) ends the mode.
+func (w *world) enter(k string) {
+	atomic.AddInt64(&w.activity, 1)
+	if w.jitter != nil && w.jitter.Intn(4) == 0 {
+		time.Sleep(time.Duration(w.jitter.Intn(int(blockedInterval) * 3 / 2)))
+	}
+	if w.blk != nil {
+		if k == "getstart" || k == "send" {
+			return
+		}
+		w.blk = nil
+	}
+	w.drain()
+}
+
+// inject puts progress values on the progress channel and optionally closes it
+func (w *world) inject(vs []uint64, closeIt bool) {
+	if w.pclosed {
+		return
+	}
+	for _, v := range vs {
+		w.progress <- v
+	}
+	if closeIt {
+		close(w.progress)
+		w.pclosed = true
+	}
+}
+
 type fakeMgr struct{ w *world }
 
 func (m *fakeMgr) get(start bool, lsn uint64) (conn.Conn, error) {
 	w := m.w
-	w.drain()
+	w.mu.Lock()
+	defer w.mu.Unlock()
+	if w.dead {
+		return w.cur, errors.New("case abandoned")
+	}
+	if start {
+		w.enter("getstart")
+	} else {
+		w.enter("getplain")
+	}
 	fresh := w.cur == nil || w.cur.closed
 	if fresh {
 		w.cur = &fakeConn{w: w}
@@ -111,7 +243,12 @@ func (m *fakeMgr) GetConnWithStartLsn(ctx context.Context, lsn uint64) (conn.Con
 }
 func (m *fakeMgr) Close() {
 	w := m.w
-	w.drain()
+	w.mu.Lock()
+	defer w.mu.Unlock()
+	if w.dead {
+		return
+	}
+	w.enter("close")
 	w.log = append(w.log, Obs{K: "close"})
 	if w.cur != nil {
 		w.cur.closed = true
@@ -127,8 +264,25 @@ type fakeConn struct {
 
 func (c *fakeConn) IsClosed() bool { return c.closed }
 func (c *fakeConn) SendStandbyStatus(ctx context.Context, st pglogrepl.StandbyStatusUpdate) error {
-	c.w.drain()
-	c.w.log = append(c.w.log, Obs{K: "send", Lsn: uint64(st.WALWritePosition), Reply: st.ReplyRequested})
+	w := c.w
+	w.mu.Lock()
+	defer w.mu.Unlock()
+	if w.dead {
+		return errors.New("case abandoned")
+	}
+	w.enter("send")
+	w.log = append(w.log, Obs{K: "send", Lsn: uint64(st.WALWritePosition), Reply: st.ReplyRequested})
+	if b := w.blk; b != nil {
+		// the status update of a blocked tick: the next batch waits for the next tick; after the
+		// last scripted tick make room so that the pending hand-over succeeds
+		b.sent++
+		if b.sent < len(b.batches) {
+			w.inject(b.batches[b.sent], b.closeLast && b.sent == len(b.batches)-1)
+		} else {
+			w.blk = nil
+			w.drain()
+		}
+	}
 	return nil
 }
 func (c *fakeConn) StartReplication(context.Context, string, pglogrepl.LSN, pglogrepl.StartReplicationOptions) error {
@@ -142,7 +296,12 @@ func (c *fakeConn) DropReplicationSlot(context.Context, string, pglogrepl.DropRe
 	return nil
 }
 func (c *fakeConn) IdentifySystem(context.Context) (pglogrepl.IdentifySystemResult, error) {
-	c.w.drain()
+	c.w.mu.Lock()
+	defer c.w.mu.Unlock()
+	if c.w.dead {
+		return pglogrepl.IdentifySystemResult{}, errors.New("case abandoned")
+	}
+	c.w.enter("identify")
 	c.w.log = append(c.w.log, Obs{K: "identify"})
 	return pglogrepl.IdentifySystemResult{XLogPos: pglogrepl.LSN(c.w.script[c.w.pos-1].XLog)}, nil
 }
@@ -168,7 +327,12 @@ func xlogData(wal uint64, payload string) pgproto3.BackendMessage {
 
 func (c *fakeConn) ReceiveMessage(ctx context.Context) (pgproto3.BackendMessage, error) {
 	w := c.w
-	w.drain()
+	w.mu.Lock()
+	defer w.mu.Unlock()
+	if w.dead {
+		return nil, errors.New("case abandoned")
+	}
+	w.enter("recv")
 	w.log = append(w.log, Obs{K: "recv"})
 	if w.pos >= len(w.script) {
 		// script exhausted (only when the last scripted event was not fatal): stop the client
@@ -177,12 +341,19 @@ func (c *fakeConn) ReceiveMessage(ctx context.Context) (pgproto3.BackendMessage,
 	}
 	e := w.script[w.pos]
 	w.pos++
-	for _, v := range e.Inject {
-		w.progress <- v
-	}
-	if e.PClose && !w.pclosed {
-		close(w.progress)
-		w.pclosed = true
+	w.inject(e.Inject, e.PClose)
+	if len(e.Blocked) > 0 {
+		// (sanitize: a blocked case, and the client will want to forward this message)
+		// everything forwarded so far is in the log; fill the output channel and keep it full
+		for full := false; !full; {
+			select {
+			case w.out <- w.filler:
+			default:
+				full = true
+			}
+		}
+		w.blk = &blockState{batches: e.Blocked, closeLast: e.BlockedClose}
+		w.inject(e.Blocked[0], e.BlockedClose && len(e.Blocked) == 1)
 	}
 	switch e.Kind {
 	case "xlog":
@@ -230,27 +401,62 @@ func (c *fakeConn) ReceiveMessage(ctx context.Context) (pgproto3.BackendMessage,
 	return &pgproto3.CopyDone{}, nil
 }
 
-func runImpl(c Case) (log []Obs, unreliable bool) {
+const (
+	blockedBuffer   = 2                     // output channel capacity of a blocked case
+	blockedInterval = 20 * time.Millisecond // its progress ticker period
+	hangSeconds     = 20                    // no fake callback for this long = the client hangs
+)
+
+// runImpl runs one (sanitized) case on the real client.  unreliable: the log depends on a wall-clock
+// class that could not be enforced (or the client hung); hungBlocked: it hung while the fake was
+// keeping the output channel full, i.e. it stopped sending status updates (the C18 monitor's case).
+func runImpl(c Case) (log []Obs, unreliable bool, hungBlocked bool) {
 	sh := shutdown.NewShutdownHandler()
 	statsCh := make(chan stats.Stat, 1<<16)
 	w := &world{progress: make(chan uint64, 1<<12), sh: sh}
+	w.filler = &replication.WalMessage{TimeBasedKey: "FILLER"}
 	w.script = append([]Event{c.First}, c.Events...)
 	mgr := &fakeMgr{w}
-	r := rclient.New(sh, statsCh, mgr, 1<<14, time.Hour)
+	buffer, interval := 1<<14, time.Hour
+	if c.Blocked {
+		buffer, interval = blockedBuffer, blockedInterval
+		if os.Getenv("VERIF_CLIENT_JITTER") != "" {
+			// Self-test of the tick inference (off by default): the fakes of a blocked case stall at
+			// random for up to 1.5 tick periods, as a descheduled client goroutine would, so that
+			// ticks land at loop heads and in unscripted WriteLoops.  Not seeded from the case PRNG.
+			w.jitter = rand.New(rand.NewSource(time.Now().UnixNano()))
+		}
+	}
+	r := rclient.New(sh, statsCh, mgr, buffer, interval)
 	w.out = r.GetOutputChan()
 	w.lastKA = time.Now()
 	done := make(chan struct{})
 	go func() { r.Start(w.progress); close(done) }()
-	select {
-	case <-done:
-	case <-time.After(20 * time.Second):
-		w.log = append(w.log, Obs{K: "HANG"})
-		sh.CancelFunc()
-		return w.log, true
+	// wait for Start to return; a hang is "no fake callback for hangSeconds" (not a total running
+	// time: a blocked case legitimately waits for real ticks, and the machine may be loaded)
+	last, idle := int64(-1), 0
+	for finished := false; !finished; {
+		select {
+		case <-done:
+			finished = true
+		case <-time.After(time.Second):
+			if a := atomic.LoadInt64(&w.activity); a != last {
+				last, idle = a, 0
+			} else if idle++; idle >= hangSeconds {
+				w.mu.Lock()
+				w.dead = true
+				hungBlocked = w.blk != nil
+				log = append(append([]Obs{}, w.log...), Obs{K: "HANG"})
+				w.mu.Unlock()
+				sh.CancelFunc()
+				return log, true, hungBlocked
+			}
+		}
 	}
 	w.drain()
 	w.log = append(w.log, Obs{K: "stop"})
-	return w.log, w.tooSlow
+	// (tooSlow classifies reply-requested keepalives; blocked cases have none after the prologue)
+	return w.log, w.tooSlow && !c.Blocked, false
 }
 
 // ---- Gallina ----
@@ -303,23 +509,154 @@ func nlist(vs []uint64) string {
 	return core.GList(s)
 }
 
-func caseGallina(c Case, log []Obs) string {
-	// values injected inside receive k are seen by the next handleProgress call: the second one
-	// of iteration k if its event has one, else the loop-head call of iteration k+1
+// blockedList renders [i_blocked]: one (values waiting at the tick, channel closed after them) per tick
+func blockedList(ticks []tickT) string {
+	s := make([]string, len(ticks))
+	for i, t := range ticks {
+		s[i] = core.GTuple(nlist(t.vs), core.GBool(t.closed))
+	}
+	return core.GList(s)
+}
+
+type tickT struct {
+	vs     []uint64
+	closed bool
+}
+
+// inferStats: what caseGallina read off the log of a blocked case
+type inferStats struct {
+	blockedEvents int // events scripted with Blocked that the client reached
+	blockedTicks  int // status updates observed between a receive and the hand-over of its message
+	extraTicks    int // of those: not scripted (the real ticker fired once more, or in an unscripted WriteLoop)
+	failedLoops   int // WriteLoops that ended with handleProgress failing (progress channel closed)
+	headTicks     int // loop heads with a status update although no progress value was waiting: a tick for certain
+	headSends     int // loop heads with a status update (tick or newer value; not distinguished)
+}
+
+// segment analysis.  s = the log entries between receive r and receive r+1: first the rest of
+// iteration r (the handling of event e), then the loop head of iteration r+1.  Status updates
+// belong to the handling of e as follows, everything after is the next loop head:
+//   - e reaches the WriteLoop and its message comes out: the updates before the "out" (blocked ticks);
+//   - e reaches the WriteLoop and nothing comes out: all (the WriteLoop failed, the client stopped);
+//   - timeout / keepalive with reply: the first one (the second handleProgress(true));
+//   - anything else: none.
+func analyse(e Event, reaches, prologue bool, s []Obs) (post int, forwarded bool, head int) {
+	sends, beforeOut := 0, 0
+	for _, o := range s {
+		if o.K == "send" {
+			sends++
+		}
+		if o.K == "out" && reaches && !forwarded {
+			forwarded, beforeOut = true, sends
+		}
+	}
+	switch {
+	case prologue:
+		post = 0
+	case reaches && forwarded:
+		post = beforeOut
+	case reaches:
+		post = sends
+	case callsProgressAgain(e) && sends > 0:
+		post = 1
+	}
+	return post, forwarded, sends - post
+}
+
+func caseGallina(c Case, log []Obs) (string, inferStats) {
+	var st inferStats
+	// seg[r] = the log between receive r and receive r+1 (receive r consumes script[r]; script[0] = First)
+	var seg [][]Obs
+	for _, o := range log {
+		if o.K == "recv" {
+			seg = append(seg, nil)
+		} else if len(seg) > 0 {
+			seg[len(seg)-1] = append(seg[len(seg)-1], o)
+		}
+	}
+	// The progress channel as the client sees it: values put on it wait until the next
+	// handleProgress call, which takes them all; "closed" is seen by every later call.  The harness
+	// puts values on it only (a) inside a receive: Inject, PClose, and batch 0 of Blocked, and
+	// (b) in a blocked event, right after the status update of tick j: batch j+1 (closing the
+	// channel with the last batch if BlockedClose).  handleProgress is called at every loop head,
+	// a second time for timeout / keepalive-with-reply, and once per tick served in a WriteLoop.
+	var pending []uint64
+	closed := false
+	put := func(vs []uint64, closeIt bool) { // = world.inject
+		if closed {
+			return
+		}
+		pending = append(pending, vs...)
+		closed = closeIt
+	}
+	take := func() ([]uint64, bool) { // = one handleProgress call
+		p := pending
+		pending = nil
+		return p, closed
+	}
+	put(c.First.Inject, c.First.PClose)
+	f := newFraming()
 	its := make([]string, len(c.Events))
-	carry := c.First.Inject
-	carryClosed := c.First.PClose
+	// status updates at the loop head of iteration 1 (after the prologue's receive nothing else can send)
+	headSends := 0
+	if len(seg) > 0 {
+		_, _, headSends = analyse(c.First, false, true, seg[0])
+	}
 	for i, e := range c.Events {
-		p1, c1 := carry, carryClosed
+		r := i + 1 // receive number of this iteration
+		reaches := f.reaches(e)
+		p1, c1 := take()
+		// ticker at the loop head.  Only blocked cases have a ticker that fires.  A status update at
+		// the loop head is sent iff (a newer value was waiting || tick): with i_tick := "an update was
+		// sent" the model sends in exactly the same situations, whichever of the two was the reason.
+		tick := c.Blocked && headSends > 0
+		if tick {
+			st.headSends++
+			if len(p1) == 0 {
+				st.headTicks++
+			}
+		}
+		put(e.Inject, e.PClose)
 		var p2 []uint64
 		c2 := false
 		if callsProgressAgain(e) {
-			p2, c2 = e.Inject, e.PClose || c1
-			carry, carryClosed = nil, c2
-		} else {
-			carry, carryClosed = e.Inject, e.PClose || c1
+			p2, c2 = take()
 		}
-		its[i] = fmt.Sprintf("mkIter false %s %s %s %s %s", nlist(p1), core.GBool(c1), evGallina(e), nlist(p2), core.GBool(c2))
+		post, forwarded, head := 0, true, 0
+		if r < len(seg) { // else: the client had stopped before (the model has, too)
+			post, forwarded, head = analyse(e, reaches, false, seg[r])
+		}
+		var ticks []tickT
+		if reaches {
+			k := len(e.Blocked)
+			if k > 0 {
+				put(e.Blocked[0], e.BlockedClose && k == 1)
+				if r < len(seg) {
+					st.blockedEvents++
+				}
+			}
+			// one tick per status update observed before the message came out: scripted batches
+			// first, extra ticks find whatever is (not) waiting
+			for j := 0; j < post; j++ {
+				vs, cl := take()
+				ticks = append(ticks, tickT{vs, cl})
+				st.blockedTicks++
+				if j >= k {
+					st.extraTicks++
+				}
+				if j+1 < k {
+					put(e.Blocked[j+1], e.BlockedClose && j+1 == k-1)
+				}
+			}
+			if !forwarded {
+				// the message never came out: one more tick was served and found the channel closed
+				vs, cl := take()
+				ticks = append(ticks, tickT{vs, cl})
+				st.failedLoops++
+			}
+		}
+		its[i] = fmt.Sprintf("mkIter %s %s %s %s %s %s %s", core.GBool(tick), nlist(p1), core.GBool(c1), evGallina(e), nlist(p2), core.GBool(c2), blockedList(ticks))
+		headSends = head
 	}
 	obs := []string{}
 	for _, o := range log {
@@ -344,7 +681,7 @@ func caseGallina(c Case, log []Obs) string {
 			obs = append(obs, "CStop; CStop") // HANG: never matches
 		}
 	}
-	return core.GTuple(evGallina(c.First), core.GList(its), core.GList(obs))
+	return core.GTuple(evGallina(c.First), core.GList(its), core.GList(obs)), st
 }
 
 // ---- monitors on the implementation's log (independent of the model) ----
@@ -368,10 +705,37 @@ func monitor(c Case, log []Obs) []core.Violation {
 	keyOfBegin := map[string]bool{}
 	commitsPerKey := map[string]int{}
 	expectBeginNext := false
+	// the blocked event being handled, if any: its scripted batches, how many status updates the
+	// client has sent since the receive, how many it owes before the harness makes room (with
+	// BlockedClose the last tick fails instead of sending)
+	var blocked [][]uint64
+	blockedSends, blockedOwed, blockedClose := 0, 0, false
+	pclosed := false // the harness has closed the progress channel: nothing is put on it any more
+	register := func(vs []uint64, closeIt bool) {
+		if pclosed {
+			return
+		}
+		for _, v := range vs {
+			injected[v] = true
+		}
+		pclosed = closeIt
+	}
 	for i, o := range log {
+		if o.K != "send" && o.K != "getstart" && o.K != "HANG" {
+			// anything else ends a blocked event: the message came out (the harness made room only
+			// after the owed updates), or the client shut down
+			if blocked != nil && o.K == "out" && blockedSends < blockedOwed {
+				add("C18", "no-status-update-while-output-blocked", fmt.Sprintf("event %d: the message came out after %d status updates; the output channel was kept full for %d ticks", k, blockedSends, blockedOwed))
+			}
+			blocked = nil
+		}
 		switch o.K {
 		case "HANG":
-			add("C17", "client-hangs", "the client did not stop within 20 s of a fatal event")
+			if blocked != nil && blockedSends < blockedOwed {
+				add("C18", "no-status-update-while-output-blocked", fmt.Sprintf("event %d: the output channel is full and the client holds a message; it sent %d status updates, then none for %d s (progress interval %v); %d were owed", k, blockedSends, hangSeconds, blockedInterval, blockedOwed))
+			} else {
+				add("C17", "client-hangs", "the client did not stop within 20 s of a fatal event")
+			}
 		case "recv":
 			if pendingReply {
 				add("C18", "reply-requested-not-answered-before-next-read", fmt.Sprintf("log position %d: the client read again without answering a keepalive that requested a reply", i))
@@ -380,8 +744,14 @@ func monitor(c Case, log []Obs) []core.Violation {
 			k++
 			if k < len(script) {
 				e := script[k]
-				for _, v := range e.Inject {
-					injected[v] = true
+				register(e.Inject, e.PClose)
+				if len(e.Blocked) > 0 {
+					// batch 0 is put on the progress channel inside this receive
+					blocked, blockedSends, blockedOwed, blockedClose = e.Blocked, 0, len(e.Blocked), e.BlockedClose
+					if e.BlockedClose {
+						blockedOwed--
+					}
+					register(e.Blocked[0], e.BlockedClose && len(e.Blocked) == 1)
 				}
 				if k == 0 && e.Kind == "keepalive" {
 					s0, haveS0 = e.Wal, true
@@ -416,6 +786,14 @@ func monitor(c Case, log []Obs) []core.Violation {
 				add("C03", "ack-not-from-ledger", fmt.Sprintf("acknowledged %d, which is neither the session start position %d nor a value delivered on the progress channel", o.Lsn, s0))
 			}
 			lastSend, sent = o.Lsn, true
+			if blocked != nil {
+				// a blocked tick's update (checked above like every other one); only now does the
+				// harness put the next batch on the progress channel
+				blockedSends++
+				if blockedSends < len(blocked) {
+					register(blocked[blockedSends], blockedClose && blockedSends == len(blocked)-1)
+				}
+			}
 		case "getstart":
 			if o.Fresh && k >= 0 {
 				// the event being handled may itself be the COMMIT just counted: the request is issued
@@ -757,6 +1135,39 @@ func genSoup(rng *rand.Rand) Case {
 	return c
 }
 
+// makeBlocked turns a generated case into a blocked case: up to three of the XLogData events the
+// client will forward get 1-3 blocked ticks with 0-2 progress values each (positions of COMMITs
+// sent earlier in the script - what a ledger would report -, or arbitrary/stale ones); one in ten
+// closes the progress channel with its last batch.
+func makeBlocked(rng *rand.Rand, c *Case) {
+	c.Blocked = true
+	f := newFraming()
+	var commits []uint64
+	budget := 1 + rng.Intn(3)
+	for i := range c.Events {
+		e := &c.Events[i]
+		reaches := f.reaches(*e)
+		if reaches && budget > 0 && rng.Intn(4) == 0 {
+			budget--
+			for k := 1 + rng.Intn(3); k > 0; k-- {
+				batch := []uint64{}
+				for n := rng.Intn(3); n > 0; n-- {
+					if len(commits) > 0 && rng.Intn(4) != 0 {
+						batch = append(batch, commits[rng.Intn(len(commits))])
+					} else {
+						batch = append(batch, uint64(rng.Intn(3000)))
+					}
+				}
+				e.Blocked = append(e.Blocked, batch)
+			}
+			e.BlockedClose = rng.Intn(10) == 0
+		}
+		if e.Kind == "xlog" && e.X == "commit" {
+			commits = append(commits, e.Wal)
+		}
+	}
+}
+
 func loadCorpus(dir string) []Case {
 	var out []Case
 	files, _ := filepath.Glob(filepath.Join(dir, "CLIENT", "*.json"))
@@ -779,7 +1190,8 @@ func init() {
 		if err := json.Unmarshal(cs, &c); err != nil {
 			return "bad case: " + err.Error()
 		}
-		log, unreliable := runImpl(c)
+		sanitize(&c)
+		log, unreliable, _ := runImpl(c)
 		var sb strings.Builder
 		for _, o := range log {
 			j, _ := json.Marshal(o)
@@ -787,6 +1199,10 @@ func init() {
 			sb.WriteString("\n")
 		}
 		fmt.Fprintf(&sb, "timing-unreliable=%v\n", unreliable)
+		if c.Blocked {
+			_, st := caseGallina(c, log)
+			fmt.Fprintf(&sb, "blocked case (ticks are real: read off this log): %+v\n", st)
+		}
 		for _, v := range monitor(c, log) {
 			fmt.Fprintf(&sb, "MONITOR %s [%s]: %s\n", v.Property, v.Signature, v.What)
 		}
@@ -794,28 +1210,56 @@ func init() {
 	}, Run: func(rng *rand.Rand, n int, corpusDir string, rep *core.Report) string {
 		cases := loadCorpus(corpusDir)
 		for i := 0; i < n; i++ {
+			var c Case
 			if rng.Intn(10) < 6 {
-				cases = append(cases, genPgLike(rng))
+				c = genPgLike(rng)
 			} else {
-				cases = append(cases, genSoup(rng))
+				c = genSoup(rng)
 			}
+			if rng.Intn(4) == 0 {
+				makeBlocked(rng, &c)
+			}
+			cases = append(cases, c)
 		}
-		rep.Rule = "corpus first, then seeded scripts for a fake connection manager/connection: 60% PostgreSQL-like streams (1-6 transactions, disconnects and lost COMMITs with redelivery, keepalives, timeouts, nil/short/other messages, progress values injected increasing/repeated/decreasing/in bursts), 40% adversarial soup incl. error responses anywhere, closed progress channel, rapid reply requests, unparsable payloads, bad first message. Non-trivial: >= 1 reconnect or recovery or >= 2 acknowledgements; distinct by event-kind sequence."
+		for i := range cases {
+			sanitize(&cases[i])
+		}
+		rep.Rule = "25% of the generated cases are BLOCKED cases: 2-slot output channel, real 20 ms progress ticker, no reply-requested keepalives; on up to 3 forwarded XLogData events the fake keeps the output channel full for 1-3 ticks with scripted progress values per tick (1 in 10 closes the progress channel with the last batch); ticks that the real ticker additionally delivers at loop heads / in other WriteLoops are read off the implementation's log (i_tick, i_blocked), the model must reproduce the whole log. Otherwise: corpus first, then seeded scripts for a fake connection manager/connection: 60% PostgreSQL-like streams (1-6 transactions, disconnects and lost COMMITs with redelivery, keepalives, timeouts, nil/short/other messages, progress values injected increasing/repeated/decreasing/in bursts), 40% adversarial soup incl. error responses anywhere, closed progress channel, rapid reply requests, unparsable payloads, bad first message. Non-trivial: >= 1 reconnect or recovery or >= 2 acknowledgements; distinct by event-kind sequence."
 		var sb strings.Builder
 		sb.WriteString("From Bifrost.model Require Import Base Client.\nDefinition cases : list ccase := [\n")
 		seen := map[string]bool{}
 		kept := 0
 		for _, c := range cases {
-			log, unreliable := runImpl(c)
+			log, unreliable, hungBlocked := runImpl(c)
+			if hungBlocked {
+				// the client stopped sending status updates while its output was blocked: the C18
+				// monitor's case (nothing to compare with the model: the case never ended)
+				core.Bump(rep, "blocked:hung-while-output-blocked")
+				rep.Violations = append(rep.Violations, monitor(c, log)...)
+				continue
+			}
 			if unreliable {
 				core.Bump(rep, "dropped:timing-class-unreliable")
+				if c.Blocked {
+					core.Bump(rep, "dropped:blocked-case-unreliable")
+				}
 				continue
 			}
 			if kept > 0 {
 				sb.WriteString(";\n")
 			}
 			kept++
-			sb.WriteString(caseGallina(c, log))
+			gal, st := caseGallina(c, log)
+			sb.WriteString(gal)
+			if c.Blocked {
+				core.Bump(rep, "blocked:cases")
+				rep.Distribution["blocked:events-scripted-and-reached"] += st.blockedEvents
+				rep.Distribution["blocked:ticks-observed"] += st.blockedTicks
+				rep.Distribution["blocked:ticks-extra(unscripted)"] += st.extraTicks
+				rep.Distribution["blocked:write-loops-failed(progress-channel-closed)"] += st.failedLoops
+				rep.Distribution["blocked:loop-head-sends(tick-or-newer-value)"] += st.headSends
+				rep.Distribution["blocked:loop-head-ticks(certain)"] += st.headTicks
+			}
 			rep.CaseIndex = append(rep.CaseIndex, core.RawJSON(c))
 			rep.Evaluations++
 			core.Bump(rep, "mode:"+strings.SplitN(c.Mode, ":", 2)[0])
@@ -823,6 +1267,9 @@ func init() {
 			for _, e := range c.Events {
 				core.Bump(rep, "ev:"+e.Kind+e.X)
 				sig += e.Kind[:2] + e.X + fmt.Sprint(len(e.Inject))
+				if len(e.Blocked) > 0 {
+					sig += fmt.Sprintf("b%d%v", len(e.Blocked), e.BlockedClose)
+				}
 			}
 			fresh, sends := 0, 0
 			for _, o := range log {
